@@ -152,6 +152,7 @@ func (t *Dense) WriteCSV(w io.Writer, formats ...string) (err error) {
 			}
 			cw.Flush()
 			record = record[:0]
+			k = 0
 		}
 
 		// cleanup
